@@ -788,6 +788,31 @@ func c08SliceBounds(r *an.Run) {
 					r.Pass(key+"|audited", s.Pos(), "audited by construction: %s", why)
 					continue
 				}
+				// the sliced value is a parameter that stands for an audited list at every call site
+				if p, isParam := s.X.(*ssa.Parameter); isParam {
+					lifted, all := "", true
+					callers := r.P.CallersOf(f)
+					for i, q := range f.Params {
+						if q != p {
+							continue
+						}
+						for _, c := range callers {
+							if c.Common().StaticCallee() != f || i >= len(an.CallArgs(c)) {
+								all = false
+								continue
+							}
+							ap := an.Path(an.CallArgs(c)[i])
+							if ap == "" || lifted != "" && ap != lifted {
+								all = false
+							}
+							lifted = ap
+						}
+					}
+					if why, ok := sliceBoundsByConstruction[rel+"|"+lifted]; ok && all && len(callers) > 0 {
+						r.Pass(key+"|audited", s.Pos(), "audited by construction (the parameter is %s at every call site): %s", lifted, why)
+						continue
+					}
+				}
 				r.Fail(key, s.Pos(), "%s slices %s[%s:%s] with two computed bounds and nothing on the way establishes low <= high (no loop that counts high up from low, no dominating comparison): for some input low > high and gopatch panics with 'slice bounds out of range'", short(f), base, an.Describe(s.Low), an.Describe(s.High))
 			}
 		}
